@@ -31,7 +31,7 @@ def scanner_statements(fn):
     """normalised statements of the scan loop that touch the scanner state (result list renamed to a common name)"""
     loops = [s for s in walk_no_nested(fn.node) if isinstance(s, ast.While)]
     if len(loops) != 1: return None
-    out = set()
+    out = set(); seq = []
     def visit(body):
         for s in body:
             if isinstance(s, (ast.If, ast.Try, ast.While, ast.For)):
@@ -50,8 +50,16 @@ def scanner_statements(fn):
             if t.startswith('code = compile('): t = t[len('code = '):]
             if 'OUT.append((expr, code))' in t: continue
             out.add(t)
+            rd = {n.id for n in ast.walk(s) if isinstance(n, ast.Name) and isinstance(n.ctx, ast.Load)}
+            wr = {n.id for n in ast.walk(s) if isinstance(n, ast.Name) and isinstance(n.ctx, ast.Store)}
+            seq.append((t, rd, wr))
     visit(loops[0].body)
+    out = OrderedScan(out); out.seq = seq
     return out
+
+
+class OrderedScan(set):
+    seq = ()
 
 
 def run(ctx):
@@ -67,6 +75,27 @@ def run(ctx):
         ctx.ob('C30-SCAN.siblings-scan-identically', ad if t in a else pr, t, ok,
                '' if ok else 'scanner statement `%s` occurs only in %s: adapt_sql and parse_raw_sql no longer tokenise `$`-expressions the same way'
                % (t, 'adapt_sql' if t in a else 'parse_raw_sql'))
+    # dependent scanner statements come in the same order in both siblings (e.g. the position is advanced by the length of the
+    # expression BEFORE its trailing `;` is stripped; swapping the two in one sibling leaves the `;` in the SQL text)
+    def order_pairs(sc):
+        res = {}
+        for i, (t1, r1, w1) in enumerate(sc.seq):
+            for t2, r2, w2 in sc.seq[i + 1:]:
+                if t1 != t2 and ((w1 & r2) or (w2 & r1) or (w1 & w2)): res.setdefault((t1, t2), True)
+        return res
+    pa, pb = order_pairs(a), order_pairs(b)
+    npairs = 0
+    for (t1, t2) in sorted(pa):
+        if t1.startswith('raise') or t2.startswith('raise'): continue
+        if (t2, t1) in pb and (t1, t2) not in pb:
+            npairs += 1
+            ctx.ob('C30-SCAN.siblings-scan-in-the-same-order', pr, '%s  <>  %s' % (t1, t2), False,
+                   'adapt_sql executes `%s` before `%s`, parse_raw_sql the other way round, and one depends on the other: the two scanners consume different '
+                   'text for the same `$`-expression' % (t1, t2))
+        elif (t1, t2) in pb:
+            npairs += 1
+            ctx.ob('C30-SCAN.siblings-scan-in-the-same-order', pr, '%s  <>  %s' % (t1, t2), True, '', nontrivial=False)
+    ctx.floor('C30-SCAN', npairs, 5, 'dependent statement pairs common to both scanners')
     # ---------------------------------------------------------------- ORDER
     chain = None
     for s in walk_no_nested(ad.node):
@@ -133,6 +162,7 @@ def run(ctx):
 
 
 MUTANTS = [
+    dict(id='C30-s1', file='pony/orm/ormtypes.py', fn='parse_raw_sql', old="            pos = i+1 + len(expr)\n            if expr.endswith(';'): expr = expr[:-1]\n", new="            if expr.endswith(';'): expr = expr[:-1]\n            pos = i+1 + len(expr)\n", expect='C30-SCAN.siblings-scan-in-the-same-order'),
     dict(id='C30-m1', file='pony/orm/core.py', fn='adapt_sql', old='    adapted_sql_cache[(original_sql, paramstyle)] = result', new='    adapted_sql_cache[(sql, paramstyle)] = result', expect='C30-KEY'),
     dict(id='C30-m2', file='pony/orm/core.py', fn='adapt_sql', old="            if expr.endswith(';'): expr = expr[:-1]\n", new='', expect='C30-SCAN'),
     dict(id='C30-m3', file='pony/orm/ormtypes.py', fn='parse_raw_sql', old='            pos = i+2', new='            pos = i+1', expect='C30-SCAN'),
